@@ -190,6 +190,7 @@ class Continuous(AgentSchedulingComponent):
         # find at most `n_slots`
         loop_core_idx = 0
         loop_gpu_idx  = 0
+        gpu_shares    = dict()  # gpu shares handed out during this search
         while len(slots) < n_slots:
 
             node_idx  = node['index']
@@ -252,9 +253,12 @@ class Continuous(AgentSchedulingComponent):
                 for gpu_idx,gpu_occ in enumerate(node['gpus'][loop_gpu_idx:],
                                                               loop_gpu_idx):
 
-                    if gpus_per_slot <= rpc.BUSY - gpu_occ:
+                    gpu_used = gpu_occ + gpu_shares.get(gpu_idx, 0.0)
+                    if gpus_per_slot <= rpc.BUSY - gpu_used:
                         slot['gpus'].append(RO(index=gpu_idx,
                                                occupation=gpus_per_slot))
+                        gpu_shares[gpu_idx] = gpu_shares.get(gpu_idx, 0.0) \
+                                            + gpus_per_slot
                         break
                     else:
                         loop_gpu_idx = gpu_idx + 1
